@@ -39,7 +39,7 @@ pub static DEF: CheckDef = CheckDef {
     extra_coverage: Some(extra_coverage),
 };
 
-const N_SCENARIOS: usize = 12;
+const N_SCENARIOS: usize = 13;
 const SWEEP_SCHEDULES: usize = 3;
 
 fn plan(t: Tier) -> Vec<ClassPlan> {
@@ -188,6 +188,16 @@ pub fn scenario(i: usize) -> Scenario {
             }
             b.ops(5, emits);
             Scenario { name: "bounded-cross-traffic", clients: vec![cs(TKind::Bounded(1), v20), cs(TKind::Bounded(2), v20)], tasks: b.tasks, victim_objects: vec![0] }
+        }
+        12 => {
+            // victim holds promises of unanswered calls and waits for their abort (Promise::aborted)
+            let mut b = Builder::new(&[0, 0, 0, 1, 1]);
+            b.ops(0, vec![CreateObject { o: 0, u: 0 }, CreateService { o: 0, s: 0, u: 0, ver: 1 }, Serve { s: 0, n: 2, script: HOLD }, AwaitAborted, ReleaseHeld { ok: true }]);
+            b.ops(1, vec![CreateObject { o: 1, u: 2 }, CreateService { o: 1, s: 1, u: 1, ver: 1 }, Serve { s: 1, n: 1, script: HOLD }, AwaitAborted]);
+            b.ops(2, vec![SyncBroker, SyncClient, SyncBroker]);
+            b.ops(3, vec![CreateProxy { p: 0, c: 0, s: 0 }, Call { p: 0, f: 1, mode: CallMode::Stash }, Call { p: 0, f: 2, mode: CallMode::Abort }, SyncBroker]);
+            b.ops(4, vec![CreateProxy { p: 1, c: 0, s: 1 }, Call { p: 1, f: 1, mode: CallMode::Await }]);
+            Scenario { name: "promise-aborted", clients: vec![cs(u, v20), cs(u, v20)], tasks: b.tasks, victim_objects: vec![0, 2] }
         }
         _ => {
             // a bit of everything on the victim
@@ -724,6 +734,7 @@ const SCENARIO_LABELS: [&str; N_SCENARIOS] = [
     "scenario:channel-states-1.14",
     "scenario:bounded-cross-traffic",
     "scenario:everything",
+    "scenario:promise-aborted",
 ];
 
 // ---------------------------------------------------------------------------------------------
